@@ -584,6 +584,9 @@ def flatten_str_iter(vm, it):
     if it.kind == 'flatten' and isinstance(it.a[0], It) and it.a[0].kind == 'repeat_n' and it.a[1] is None:
         inner = flatten_str_iter(vm, it.a[0].a[0])
         if inner is None: return None
+        if it.a[0].a[1] > 64:
+            if len(inner) != 1: return None
+            return [str_repeat(to_sym(inner[0]), z3.BitVecVal(it.a[0].a[1], 64))]
         return inner * it.a[0].a[1]
     return None
 
